@@ -32,7 +32,8 @@ Judge(e) ==
      /\ say(e.maxdist <= OneDiagonal, "vertex-beyond-one-cell-diagonal")
      /\ say(e.same, "repeated-run-differs")
      \* last, so that it never hides one of the clauses above
-     /\ say(e.degenerate = 0, "degenerate-triangle")
+     \* zero-area triangles are not excluded by C19 (edge balance is): drift only
+     /\ (IF e.degenerate = 0 THEN TRUE ELSE PrintT(<<"DRIFT", l>>))
 Next == /\ l <= Len(Trace) /\ l' = l + 1 /\ (IF Judge(Trace[l]) THEN TRUE ELSE TRUE)
 Spec == Init /\ [][Next]_l
 Report == l = Len(Trace) + 1 => PrintT(<<"CONSUMED", l - 1>>)
